@@ -142,6 +142,9 @@ def expressions(S: str, L: str) -> Dict[str, str]:
         "walrus": "(n := len(%s)) > 1" % S,
         "star_kwargs": 'matches_lower(**{"text": %s})' % S,
         "index_neg": '%s[-1] == "a"' % L,
+        "len_two_args": "len(%s, %s) > 1" % (S, S),
+        "len_no_args": "len() > 1",
+        "len_kwarg": "len(obj=%s) > 1" % S,
     }
 
 
@@ -190,7 +193,7 @@ def r_constprim(i: int, r: Dict[str, Any]) -> str:
 def r_constset(i: int, r: Dict[str, Any]) -> str:
     name = "Set_%d" % i
     ann = {"str": "Set[str]", "int": "Set[int]", "enum": "Set[Color]", "list": "Set[List[str]]", "two": "Set[str, int]", "bare": "Set", "unknown": "Set[Unknown_type]", "optional": "Set[Optional[str]]"}[r["elt"]]
-    ok = {"int": "[1, 2]", "enum": "[Color.Red, Color.Green]"}.get(r["elt"], '["a", "b"]')
+    ok = {"int": "[1, 2]", "enum": "[Color.Red, Color.Green]"}.get(r["elt"], '["a", "e", "b"]')  # a superset of Vowels
     vals = {
         "ok": ok,
         "empty": "[]",
@@ -204,7 +207,15 @@ def r_constset(i: int, r: Dict[str, Any]) -> str:
         "name": "Some_values",
         "nested": '[["a"]]',
     }[r["vals"]]
-    sup = {"absent": None, "empty": "[]", "ok": "[Vowels]", "unknown": "[Nonexistent_set]", "self": "[%s]" % name, "notlist": "Vowels", "attr": "[Color.Red]", "str": '["Vowels"]'}[r["sup"]]
+    helper = ""
+    sub_name = "Vowels"
+    if r["elt"] in ("int", "enum") and r["sup"] in ("ok", "dup", "dup_apart"):
+        # a subset of the matching item type, defined just before
+        sub_name = "Sub_%d" % i
+        helper = "%s: %s = constant_set(values=%s)\n\n" % (sub_name, {"int": "Set[int]", "enum": "Set[Color]"}[r["elt"]], {"int": "[1]", "enum": "[Color.Red]"}[r["elt"]])
+    sup = {"absent": None, "empty": "[]", "ok": "[%s]" % sub_name, "unknown": "[Nonexistent_set]", "self": "[%s]" % name, "notlist": "Vowels", "attr": "[Color.Red]", "str": '["Vowels"]', "dup": "[%s, %s]" % (sub_name, sub_name), "dup_apart": "[%s, Other_vowels_%d, %s]" % (sub_name, i, sub_name)}[r["sup"]]
+    if r["sup"] == "dup_apart":
+        helper += 'Other_vowels_%d: Set[str] = constant_set(values=["a"])\n\n' % i
     desc = '"Some set %d."' % i
     pos = [vals, desc, sup if sup is not None else "[]", "4", "5"][: r["npos"]]
     supkw = "superset_of=%s" % (sup if sup is not None else "[]")
@@ -221,7 +232,7 @@ def r_constset(i: int, r: Dict[str, Any]) -> str:
     if sup is not None and r["npos"] < 3 and supkw not in kws:
         kws = kws + [supkw]
     call = callee_call(r["callee"], "constant_set", "constant_str", ", ".join(pos + kws))
-    return "%s: %s = %s\n" % (name, ann, call)
+    return "%s%s: %s = %s\n" % (helper, name, ann, call)
 
 
 def r_patternfunc(i: int, r: Dict[str, Any]) -> str:
@@ -249,6 +260,11 @@ def r_patternfunc(i: int, r: Dict[str, Any]) -> str:
         "attrcall": "return re.match(%s, text) is not None" % pat,
         "kwargs": "return match(pattern=%s, string=text) is not None" % pat,
         "flags": "return match(%s, text, 2) is not None" % pat,
+        "stmt_str_mid": 'pattern = %s\n"some text"\nreturn match(pattern, text) is not None' % pat,
+        "stmt_name_mid": "pattern = %s\npattern\nreturn match(pattern, text) is not None" % pat,
+        "stmt_fstring_mid": 'pattern = %s\nf"x{pattern}"\nreturn match(pattern, text) is not None' % pat,
+        "docstring_first": '"""Check the text."""\npattern = %s\nreturn match(pattern, text) is not None' % pat,
+        "two_vars": 'first = %s\nsecond = first\nreturn match(second, text) is not None' % pat,
     }[form]
     ret = {"bool": " -> bool", "none": " -> None", "str": " -> str", "missing": "", "optional": " -> Optional[bool]"}[r["ret"]]
     args = {"text": "text: str", "noargs": "", "two": "text: str, other: str", "kwonly": "*, text: str", "default": 'text: str = "x"', "vararg": "*text: str", "untyped": "text", "self": "self, text: str"}[r["args"]]
@@ -307,6 +323,8 @@ def r_func(i: int, r: Dict[str, Any]) -> str:
         "untyped": "text, items",
         "ourtype": "text: Short_text, items: List[Something]",
         "dup_arg": "text: str, items: List[str], text: str",
+        "list_two": "text: str, items: List[str, int]",
+        "list_optional_two": "text: str, items: List[Optional[str, int]]",
     }[r["args"]]
     deco = {
         "verification": "@verification\n",
@@ -405,9 +423,13 @@ def r_class(i: int, r: Dict[str, Any]) -> str:
         "subscript": "(List[int], DBC)",
         "star": "(*Bases, DBC)",
         "prim_dbc": "(str, DBC)",
+        "dup_parent": "(Parent_a_%d, Parent_a_%d)" % (i, i),
+        "prim_only": "(str)",
     }[r["bases"]]
     if r["bases"] == "cycle":
         pre = "class Cyc_%d(%s, DBC):\n    pass\n\n\n" % (i, name)
+    if r["bases"] == "dup_parent":
+        pre = "@abstract\nclass Parent_a_%d(DBC):\n    pass\n\n\n" % i
     if r["bases"] == "two_parents":
         pre = "@abstract\nclass Parent_a_%d(DBC):\n    pass\n\n\n@abstract\nclass Parent_b_%d(DBC):\n    pass\n\n\n" % (i, i)
     deco = {
@@ -461,6 +483,9 @@ def r_class(i: int, r: Dict[str, Any]) -> str:
         "cprim": "Short_text",
         "str_subscript": '"List[int]"',
         "str_empty": '""',
+        "list_optional_two": "List[Optional[int, str]]",
+        "optional_list_two": "Optional[List[int, str]]",
+        "list_list_two": "List[List[int, str]]",
     }[r["ann"]]
     optional = r["ann"].startswith("optional")
     body_kind = r["body"]
@@ -530,6 +555,8 @@ def r_class(i: int, r: Dict[str, Any]) -> str:
         "posonly": "def __init__(self, value: %s, /) -> None:\n    self.value = value" % argann,
         "dup_arg": "def __init__(self, value: %s, value: %s) -> None:\n    self.value = value" % (ann, ann),
         "impl_specific": "@implementation_specific\ndef __init__(self, value: %s) -> None:\n    pass" % argann,
+        "prim_init_call": "def __init__(self, value: %s) -> None:\n    str.__init__(self)\n    self.value = value" % argann,
+        "prim_init_only": "def __init__(self) -> None:\n    str.__init__(self)",
     }[ctor_kind]
     if not has_prop and ctor_kind == "auto":
         ctor = ""
@@ -584,6 +611,81 @@ def r_enum(i: int, r: Dict[str, Any]) -> str:
     if not body.strip():
         body = "pass"
     return "%sclass %s%s:\n%s\n" % (pre, name, bases, indent(body))
+
+
+BARE_ITEMS = '''\
+class Color(Enum):
+    Red = "RED"
+    Green = "GREEN"
+
+
+class Something(DBC):
+    some_str: str
+    color: Optional[Color]
+
+    def __init__(self, some_str: str, color: Optional[Color] = None) -> None:
+        self.some_str = some_str
+        self.color = color
+'''
+
+
+def r_cprim(i: int, r: Dict[str, Any]) -> str:
+    E = expressions("self", "self")[r["expr"]]
+    return '@invariant(lambda self: %s, "Constraint %d holds.")\nclass Cp_%d(%s, DBC):\n    pass\n' % (E, i, i, r["prim"])
+
+
+def r_docref(i: int, r: Dict[str, Any]) -> str:
+    target = {
+        "name": {"class": "Something", "attr": "some_str", "paramref": "value", "constraintref": "AASd-001", "const": "Max_len"}.get(r["role"], "Something"),
+        "dotted2": "Something.some_str",
+        "dotted3": "Something.some_str.symbol",
+        "dash": "some-value",
+        "tilde_dot": "~.some_str",
+        "bang": "!Something",
+        "empty": "",
+        "space": "Some thing",
+        "digit": "1abc",
+        "call": "Something.some_str()",
+        "missing_name": "Missing_thing_%d" % i,
+        "constraint_id": "AASd-%03d" % i,
+    }[r["target"]]
+    role = {"class": ":class:", "attr": ":attr:", "paramref": ":paramref:", "constraintref": ":constraintref:", "const": ":const:", "py_attr": ":py:attr:", "unknown": ":unknown_role:", "ref": ":ref:", "none": ""}[r["role"]]
+    ref = "%s`%s`" % (role, target)
+    doc = '"""Refer to %s in a sentence."""' % ref
+    place = r["place"]
+    if place == "class":
+        return "class Doc_%d(DBC):\n    %s\n\n    value: int\n\n    def __init__(self, value: int) -> None:\n        self.value = value\n" % (i, doc)
+    if place == "property":
+        return "class Doc_%d(DBC):\n    value: int\n    %s\n\n    def __init__(self, value: int) -> None:\n        self.value = value\n" % (i, doc)
+    if place == "enum_literal":
+        return 'class Doc_%d(Enum):\n    A = "a"\n    %s\n' % (i, doc)
+    if place == "module":
+        return doc + "\n"  # moved to the top of the file by render_module
+    if place == "constant":
+        return "Doc_%d: int = constant_int(value=1, description=%s)\n" % (i, doc[2:-2])
+    if place == "function":
+        return "@verification\ndef doc_%d(value: str) -> bool:\n    %s\n    return len(value) > 1\n" % (i, doc)
+    if place == "method":
+        return "class Doc_%d(DBC):\n    value: int\n\n    def __init__(self, value: int) -> None:\n        self.value = value\n\n    @implementation_specific\n    def compute(self, value: int) -> int:\n        %s\n        raise NotImplementedError()\n" % (i, doc)
+    if place == "ctor":
+        return "class Doc_%d(DBC):\n    value: int\n\n    def __init__(self, value: int) -> None:\n        %s\n        self.value = value\n" % (i, doc)
+    raise KeyError(place)
+
+
+LAYOUT_LEAD = {"none": "", "space_line": "   \n", "blank_lines": "\n\n\n", "comment": "# A comment.\n\n", "tab_line": "\t\n", "formfeed_line": "\x0c\n", "spaces_comment": "    # indented comment\n", "many_space_lines": " \n" * 40}
+LAYOUT_TAIL = {
+    "none": "",
+    "unknown_stmt": "x = compute()\n",
+    "bad_class": "class Tail(Unknown_parent, DBC):\n    pass\n",
+    "bad_import": "import os\n",
+    "bad_invariant": '@invariant(lambda self: undefined_function(self.value), "Tail is fine.")\nclass Tail(DBC):\n    value: str\n\n    def __init__(self, value: str) -> None:\n        self.value = value\n',
+    "bad_pattern": '@verification\ndef matches_tail(text: str) -> bool:\n    return match("a(", text) is not None\n',
+    "no_newline_stmt": "x",
+}
+
+
+def r_layout(i: int, r: Dict[str, Any]) -> str:
+    return ""  # applied to the whole file by render_module
 
 
 TOP = {
@@ -663,7 +765,7 @@ def r_top(i: int, r: Dict[str, Any]) -> str:
     return TOP[r["stmt"]]
 
 
-RENDERERS = {"constprim": r_constprim, "constset": r_constset, "patternfunc": r_patternfunc, "func": r_func, "invariant": r_invariant, "class": r_class, "enum": r_enum, "top": r_top}
+RENDERERS = {"cprim": r_cprim, "docref": r_docref, "layout": r_layout, "constprim": r_constprim, "constset": r_constset, "patternfunc": r_patternfunc, "func": r_func, "invariant": r_invariant, "class": r_class, "enum": r_enum, "top": r_top}
 
 
 def render_item(i: int, item: Dict[str, Any]) -> str:
@@ -692,11 +794,20 @@ def render_module(case: Dict[str, Any]) -> str:
     """case = {"items": [item, ...]} (appended to the base) or {"text": "..."} (verbatim)."""
     if "text" in case:
         return case["text"]
-    parts: List[str] = [mm.HEADER, BASE_ITEMS]
-    for n, item in enumerate(case.get("items", []), start=1):
+    items = case.get("items", [])
+    bare = any(it.get("k") == "cprim" and it.get("base") == "bare" for it in items)
+    parts: List[str] = [mm.HEADER, BARE_ITEMS if bare else BASE_ITEMS]
+    module_doc = ""
+    for n, item in enumerate(items, start=1):
+        if item.get("k") == "docref" and item.get("place") == "module":
+            module_doc = render_item(n, item) + "\n"
+            continue
         parts.append("\n\n" + render_item(n, item))
     parts.append(FOOTER)
-    text = "".join(parts)
+    text = module_doc + "".join(parts)
+    for item in items:
+        if item.get("k") == "layout":
+            text = LAYOUT_LEAD[item["lead"]] + text + LAYOUT_TAIL[item["tail"]]
     for item in case.get("items", []):
         if item.get("k") == "top" and item["stmt"] in FILE_LEVEL:
             text = apply_file_level(text, item["stmt"])
@@ -708,7 +819,7 @@ def pattern_of(tokens: List[str], seq: List[int]) -> str:
     out = []
     for k in seq:
         t = tokens[k - 1]
-        out.append("\U0001F600" if t == "ASTRAL" else t)
+        out.append({"ASTRAL": "\U0001F600", "LF": "\n", "CR": "\r", "FF": "\x0c", "VT": "\x0b", "TAB": "\t"}.get(t, t))
     return "".join(out)
 
 
